@@ -88,6 +88,7 @@ class Engine:
         self.auto_inline = False
         self.compress_info = {}
         self.mask_cache = {}
+        self.index_masks = {}
         self.inv_funcs = {}
         self.trusted_facts = set()
         self.instance_results = []
@@ -681,6 +682,8 @@ class Engine:
         return ite(lt(i, 0), add(i, n), i)
 
     def getitem(self, base, idx, st):
+        if base is None and self.spec_mode:
+            return 0            # total semantics of the specification language: only reachable under a guard that excludes None
         if isinstance(base, tuple):
             if isinstance(idx, SliceV):
                 return base[slice(idx.lo, idx.hi, idx.step)]
